@@ -59,6 +59,9 @@ class NS:
 def make_app():
     import celery
     return celery.Celery()
+def chain(f):
+    LOG.append('plain:chain')
+    return f
 '''
     exec(src, m.__dict__)
     sys.modules[TRACE_MOD] = m
@@ -98,6 +101,11 @@ HOSTILE_FORMS = [
     (['from langchain_core import runnables'], 'runnables.chain', True),
     (['import langchain_core.runnables'], 'langchain_core.runnables.chain', True),
     (['from vc05trace import make_app', 'app6 = make_app()'], 'app6.task', False),
+    # untracked controls under the very names other modules of this process bind to beforelisted decorators (what one
+    # hooked module imports must not colour the next one)
+    (['from vc05trace import make_app', 'app = make_app()'], 'app.task', False),
+    (['from vc05trace import chain'], 'chain', False),
+    (['from vc05trace import make_app', 'mcp = make_app()'], 'mcp.task', False),
 ]
 
 
@@ -296,6 +304,8 @@ class Gen:
         self.emit(0, f'from {TRACE_MOD} import T, deco, NS')
         if self.rng.random() < .4:
             for pre, hsrc, tracked in self.rng.sample(HOSTILE_FORMS, self.rng.choice((1, 1, 2))):
+                if hsrc.split('.')[0] in {h.split('.')[0] for h, _ in self.hostile}:
+                    continue            # (one binding per name and module)
                 for l_ in pre:
                     if l_ not in self.lines:
                         self.emit(0, l_)
